@@ -3,50 +3,32 @@ import GdcVerif.Lemmas.JpegLsLockstep2
 namespace JpegLsScanL
 open Gen.JpegLs JpegLsLemmas JpegLsNear JpegLsRun Golomb Lockstep
 
-/-- the encoder step with its `WriteBits` calls expanded to bits -/
-def encStepB (t : Traits) (ks : List Nat) : LSt → List Pixel → R (List Bool × LSt × List Pixel) :=
-  mapSym writesBits (encStep t ks)
-
-/-- per-step agreement in the shape `Lockstep.lockstep_var` asks for -/
+/-- per-step agreement in the shape `Lockstep.lockstep_var2` asks for -/
 theorem step_agree (P : Nat) (N : Int) (h : Admissible P N) (comps : Nat) (hc : 1 ≤ comps) (line : List Pixel)
     (s : LSt) (todo : List Pixel) (hne : todo ≠ []) (hinv : LInv comps ((2 : Int) ^ P - 1) N line s todo) :
-    ∃ bs s' todo', encStepB (traits P N) (List.range comps) s todo = .ok (bs, s', todo') ∧
-      todo'.length < todo.length ∧ LInv comps ((2 : Int) ^ P - 1) N line s' todo' ∧
-      ∀ rest, decStep (traits P N) (List.range comps) s todo.length (bs ++ rest) = .ok (s', todo'.length, rest) := by
+    ∃ ws s' todo', encStep (traits P N) (List.range comps) s todo = .ok (ws, s', todo') ∧
+      todo'.length < todo.length ∧ LInv comps ((2 : Int) ^ P - 1) N line s' todo' ∧ WritesFit ws ∧
+      ∀ rest, decStep (traits P N) (List.range comps) s todo.length (writesBits ws ++ rest) = .ok (s', todo'.length, rest) := by
   cases todo with
   | nil => exact absurd rfl hne
   | cons xi rest =>
     by_cases hq : ((ids (traits P N) s (List.range comps)).all (fun i => i.1 == 0)) = true
-    · obtain ⟨ws, s', todo', he, hlt, hi, hd⟩ := step_run P N h comps hc line s xi rest hinv hq
-      exact ⟨writesBits ws, s', todo', by simp only [encStepB, mapSym, he], hlt, hi, hd⟩
-    · obtain ⟨ws, s', he, hi, hd⟩ := step_regular P N h comps line s xi rest hinv hq
-      exact ⟨writesBits ws, s', rest, by simp only [encStepB, mapSym, he], by simp, hi, hd⟩
+    · obtain ⟨ws, s', todo', he, hlt, hi, hd, hf⟩ := step_run P N h comps hc line s xi rest hinv hq
+      exact ⟨ws, s', todo', he, hlt, hi, hf, hd⟩
+    · obtain ⟨ws, s', he, hi, hd, hf⟩ := step_regular P N h comps line s xi rest hinv hq
+      exact ⟨ws, s', rest, he, by simp, hi, hf, hd⟩
 
 /-- one line: the decoder walk on the encoder walk's bits reaches the encoder's final state -/
 theorem line_roundtrip (P : Nat) (N : Int) (h : Admissible P N) (comps : Nat) (hc : 1 ≤ comps) (line : List Pixel)
     (s : LSt) (hinv : LInv comps ((2 : Int) ^ P - 1) N line s line) :
     ∃ ws sf, encLine (traits P N) (List.range comps) s line = .ok (ws, sf) ∧
-      LInv comps ((2 : Int) ^ P - 1) N line sf [] ∧
-      ∀ rest, decLine (traits P N) (List.range comps) line.length s (writesBits ws ++ rest) = .ok (sf, rest) := by
-  obtain ⟨bs, sf, he, hi, hd⟩ :=
-    lockstep_var Fail.err (encStepB (traits P N) (List.range comps)) (decStep (traits P N) (List.range comps))
-      (LInv comps ((2 : Int) ^ P - 1) N line)
-      (fun s todo hne hinv => step_agree P N h comps hc line s todo hne hinv)
-      (line.length + 1) s line (by omega) hinv
-  have hmap := encAllV_map (S := Pixel) writesBits writesBits_nil writesBits_append Fail.err
-    (encStep (traits P N) (List.range comps)) (line.length + 1) s line
-  unfold encStepB at he
-  rw [hmap] at he
-  unfold encLine decLine
-  cases hen : encAllV Fail.err (encStep (traits P N) (List.range comps)) (line.length + 1) s line with
-  | error e => rw [hen] at he; simp at he
-  | ok r =>
-    obtain ⟨ws, sf'⟩ := r
-    rw [hen] at he
-    simp only [Except.ok.injEq, Prod.mk.injEq] at he
-    obtain ⟨hbs, hsf⟩ := he
-    subst hsf
-    exact ⟨ws, sf', rfl, hi, fun rest => by rw [hbs]; exact hd rest⟩
+      LInv comps ((2 : Int) ^ P - 1) N line sf [] ∧ WritesFit ws ∧
+      ∀ rest, decLine (traits P N) (List.range comps) line.length s (writesBits ws ++ rest) = .ok (sf, rest) :=
+  lockstep_var2 writesBits writesBits_nil writesBits_append WritesFit fit_nil (fun _ _ => fit_append) Fail.err
+    (encStep (traits P N) (List.range comps)) (decStep (traits P N) (List.range comps))
+    (LInv comps ((2 : Int) ^ P - 1) N line)
+    (fun s todo hne hinv => step_agree P N h comps hc line s todo hne hinv)
+    (line.length + 1) s line (by omega) hinv
 
 /-- invariant between lines -/
 def BInv (comps : Nat) (M : Int) (w : Nat) (s : LSt) : Prop := SInv comps M w s ∧ s.done = []
@@ -77,20 +59,20 @@ theorem lines_roundtrip (P : Nat) (N : Int) (h : Admissible P N) (comps : Nat) (
       (∀ l ∈ lines, LineOk comps ((2 : Int) ^ P - 1) w l) →
       ∃ ws recs, encLines (traits P N) (List.range comps) lines s = .ok (ws, recs) ∧
         AllRel (AllRel (PixClose N)) recs lines ∧
-        (∀ l ∈ recs, ∀ p ∈ l, PixOk comps ((2 : Int) ^ P - 1) p) ∧
+        (∀ l ∈ recs, ∀ p ∈ l, PixOk comps ((2 : Int) ^ P - 1) p) ∧ WritesFit ws ∧
         ∀ rest, decLines (traits P N) (List.range comps) w lines.length s (writesBits ws ++ rest) = .ok (recs, rest)
-  | [], s, _, _ => ⟨[], [], rfl, AllRel.nil, by simp, fun rest => by simp [decLines, writesBits]⟩
+  | [], s, _, _ => ⟨[], [], rfl, AllRel.nil, by simp, fit_nil, fun rest => by simp [decLines, writesBits]⟩
   | line :: more, s, hb, hl => by
     obtain ⟨hlw, hlok⟩ := hl line (by simp)
     have hinv : LInv comps ((2 : Int) ^ P - 1) N line s line := by
       refine ⟨by rw [hlw]; exact hb.1, hlok, by rw [hb.2]; simp, by rw [hb.2]; simp, ?_⟩
       rw [hb.2]; simp; exact AllRel.nil
-    obtain ⟨ws, sf, he, hi, hd⟩ := line_roundtrip P N h comps hc line s hinv
+    obtain ⟨ws, sf, he, hi, hfw, hd⟩ := line_roundtrip P N h comps hc line s hinv
     obtain ⟨hbn, _, hcl, hok⟩ := nextLine_inv hi
     rw [hlw] at hbn
-    obtain ⟨ws2, recs, he2, hc2, hok2, hd2⟩ :=
+    obtain ⟨ws2, recs, he2, hc2, hok2, hfw2, hd2⟩ :=
       lines_roundtrip P N h comps hc w more (nextLine sf) hbn (fun l hl' => hl l (by simp [hl']))
-    refine ⟨ws ++ ws2, sf.done.reverse :: recs, ?_, AllRel.cons hcl hc2, ?_, ?_⟩
+    refine ⟨ws ++ ws2, sf.done.reverse :: recs, ?_, AllRel.cons hcl hc2, ?_, fit_append hfw hfw2, ?_⟩
     · simp only [encLines, he, he2]
     · intro l hl'
       simp only [List.mem_cons] at hl'
@@ -133,7 +115,7 @@ theorem image_roundtrip (P : Nat) (N : Int) (h : Admissible P N) (comps : Nat) (
     (lines : List (List Pixel)) (hl : ∀ l ∈ lines, LineOk comps ((2 : Int) ^ P - 1) w l) :
     ∃ ws recs, encodeImage (traits P N) w comps lines = .ok (ws, recs) ∧
       AllRel (AllRel (PixClose N)) recs lines ∧
-      (∀ l ∈ recs, ∀ p ∈ l, PixOk comps ((2 : Int) ^ P - 1) p) ∧
+      (∀ l ∈ recs, ∀ p ∈ l, PixOk comps ((2 : Int) ^ P - 1) p) ∧ WritesFit ws ∧
       ∀ rest, decodeImage (traits P N) w lines.length comps (writesBits ws ++ rest) = .ok (recs, rest) :=
   lines_roundtrip P N h comps hc w lines _ (initL_inv P N h w comps) hl
 
@@ -149,5 +131,23 @@ theorem pixClose_zero_eq {r p : Pixel} (hrp : PixClose 0 r p) : r = p :=
 theorem image_close_zero_eq {recs lines : List (List Pixel)} (hrl : AllRel (AllRel (PixClose 0)) recs lines) :
     recs = lines :=
   AllRel.eq (allRel_mono (fun _ _ hab => AllRel.eq (allRel_mono (fun _ _ => pixClose_zero_eq) hab)) hrl)
+
+end JpegLsScanL
+
+namespace JpegLsScanL
+open Gen.JpegLs JpegLsLemmas JpegLsNear JpegLsRun Golomb Lockstep
+
+/-- BYTE level: the scan bytes the `GolombWriter` model produces for the encoder's calls, un-stuffed
+    by the T.87 rule, decode to the encoder's reconstructed image; only zero padding is left over -/
+theorem image_bytes_roundtrip (P : Nat) (N : Int) (h : Admissible P N) (comps : Nat) (hc : 1 ≤ comps) (w : Nat)
+    (lines : List (List Pixel)) (hl : ∀ l ∈ lines, LineOk comps ((2 : Int) ^ P - 1) w l) :
+    ∃ ws recs k, encodeImage (traits P N) w comps lines = .ok (ws, recs) ∧
+      AllRel (AllRel (PixClose N)) recs lines ∧
+      (∀ l ∈ recs, ∀ p ∈ l, PixOk comps ((2 : Int) ^ P - 1) p) ∧
+      decodeImage (traits P N) w lines.length comps
+        (destuff (finish (writeAll Writer.new ws)).out false) = .ok (recs, List.replicate k false) := by
+  obtain ⟨ws, recs, he, hcl, hok, hfit, hd⟩ := image_roundtrip P N h comps hc w lines hl
+  obtain ⟨k, hk⟩ := writer_destuff ws hfit
+  exact ⟨ws, recs, k, he, hcl, hok, by rw [hk]; exact hd _⟩
 
 end JpegLsScanL
